@@ -467,7 +467,16 @@ def annotate(
 
     result = 0
     for path in paths:
-        binary = is_binary(str(path))
+        try:
+            binary = is_binary(str(path))
+        except OSError as error:
+            click.echo(
+                _("Error: Could not read '{path}': {error}").format(
+                    path=path, error=error
+                )
+            )
+            result += 1
+            continue
         created_license_file = False
         if binary or is_uncommentable(path) or force_dot_license:
             new_path = _determine_license_suffix_path(path)
